@@ -42,7 +42,7 @@ CHECKS = {
         technique="runtime oracle as C03 with a pre-populated target double under each key-exists policy; existing keys compared bit-for-bit before/after and against the request log",
         text="Prior contents (same/different type, with/without expiry, any subset of snapshot keys) x policies replace/ignore/error x RESTORE / native / chunked / "
              "bad-data-format fallback paths x workers 1/4.",
-        design="DESIGN.md §3 C20", note=TRUST + "; bidirectional replay path not yet covered"),
+        design="DESIGN.md §3 C20", note=TRUST + ""),
     "C06": dict(level="exploration", engine="fakeredis source role",
         technique="runtime monitor over the real RedisInput/cache/RedisOutput pipeline against a source double implementing Redis' PSYNC admission rule; target log (history-tagged ids), PSYNC request log and cache ranges checked after each reconnect",
         text="Enumerated product of source mutation (same id, failover with switch offset, new id, trimmed backlog) x stored resume position class x cache contents x disk/memory cache "
